@@ -26,6 +26,16 @@ def sh(cmd, **kw):
     return subprocess.run(cmd, stdout=subprocess.PIPE, stderr=subprocess.PIPE, text=True, errors="replace", **kw)
 
 
+VG_ENV = dict(os.environ, VERIF_NOASLR_DONE="1")      # the harness must not re-exec itself under valgrind
+
+
+def wrap(job, cmd):
+    """valgrind slice: the rel binary under memcheck (uninitialised-value use, which ASan cannot see)"""
+    if job and job.get("valgrind"):
+        return ["valgrind", "-q", "--error-exitcode=99"] + cmd, dict(env=VG_ENV)
+    return cmd, {}
+
+
 def build(variant):
     r = sh([os.path.join(HERE, "build.sh"), variant])
     if r.returncode != 0:
@@ -46,6 +56,11 @@ def crash_sig(stderr, rc, crashline):
         fm = re.search(r"#\d+ 0x[0-9a-f]+ in (c[mi][bi]_?\w+|cimba_\w+|hash_\w+|heap_\w+|\w+) /repo/", stderr)
         fn = fm.group(1) if fm else "?"
         return "asan/%s/%s" % (kind, fn), "AddressSanitizer %s in %s" % (kind, fn)
+    m = re.search(r"==\d+== (Conditional jump or move depends on uninitialised value|Use of uninitialised value|Invalid read|Invalid write|Invalid free|Mismatched free|Syscall param \S+ points to uninitialised|Source and destination overlap)", stderr)
+    if m:
+        fm = re.search(r"==\d+==\s+(?:at|by) 0x[0-9A-F]+: (c[mi][bi]_\w+|cimba_\w+) \(", stderr)
+        kind = m.group(1).split(" ")[0].lower() + "-" + (m.group(1).split(" ")[1].lower() if " " in m.group(1) else "")
+        return "valgrind/%s/%s" % (kind, fm.group(1) if fm else "?"), "valgrind: %s in %s" % (m.group(1), fm.group(1) if fm else "?")
     m = re.search(r"(\S+?):(\d+):\d+: runtime error: (.*)", stderr)
     if m:
         return "ubsan/%s" % os.path.basename(m.group(1)), "UBSan %s:%s %s" % (os.path.basename(m.group(1)), m.group(2), m.group(3)[:120])
@@ -127,7 +142,8 @@ def run_chunks(exe, job, base, total, res, deadline, chunk=None):
                 if job.get("only"):
                     cmd += ["--only", job["only"]]
                 try:
-                    r = sh(cmd, timeout=job.get("chunk_timeout", 600))
+                    cmd, kw = wrap(job, cmd)
+                    r = sh(cmd, timeout=job.get("chunk_timeout", 600), **kw)
                     out, err, rc = r.stdout, r.stderr, r.returncode
                 except subprocess.TimeoutExpired as e:
                     out = (e.stdout or b"").decode(errors="replace") if isinstance(e.stdout, bytes) else (e.stdout or "")
@@ -177,7 +193,7 @@ def gen_plan(exe, job, seed):
     return r.stdout
 
 
-def replay_text(exe, text, only=None, trace=False):
+def replay_text(exe, text, only=None, trace=False, job=None):
     """run a plan text in a fresh process -> (set of (prop,sig), hash or None, crash (sig,msg) or None, stdout)"""
     with tempfile.NamedTemporaryFile("w", suffix=".plan", delete=False, dir="/dev/shm" if os.path.isdir("/dev/shm") else None) as f:
         f.write(text); path = f.name
@@ -186,7 +202,8 @@ def replay_text(exe, text, only=None, trace=False):
         if only: cmd += ["--only", only]
         if trace: cmd += ["--trace"]
         try:
-            r = sh(cmd, timeout=120)
+            cmd, kw = wrap(job, cmd)
+            r = sh(cmd, timeout=300 if kw else 120, **kw)
             out, err, rc = r.stdout, r.stderr, r.returncode
         except subprocess.TimeoutExpired:
             return set(), None, ("timeout", "replay timed out"), ""
@@ -200,22 +217,22 @@ def replay_text(exe, text, only=None, trace=False):
     return set((p, s) for (p, s, m) in rec["viols"]), rec["hash"], None, out
 
 
-def has_sig(exe, text, prop, sig):
-    is_crash_sig = sig.split("/")[0] in ("abort", "asan", "ubsan", "signal", "exit", "timeout")
-    sigs, h, crash, _ = replay_text(exe, text, only=None if is_crash_sig else prop)
+def has_sig(exe, text, prop, sig, job=None):
+    is_crash_sig = sig.split("/")[0] in ("abort", "asan", "ubsan", "signal", "exit", "timeout", "valgrind")
+    sigs, h, crash, _ = replay_text(exe, text, only=None if is_crash_sig else prop, job=job)
     if crash is not None:
         return is_crash_sig and crash[0] == sig
     return (prop, sig) in sigs
 
 
-def minimise(exe, text, prop, sig, budget=350):
+def minimise(exe, text, prop, sig, budget=350, job=None):
     lines = text.rstrip("\n").split("\n")
     head, body = lines[0], lines[1:]
     runs = [0]
 
     def test(b):
         runs[0] += 1
-        return has_sig(exe, "\n".join([head] + b) + "\n", prop, sig)
+        return has_sig(exe, "\n".join([head] + b) + "\n", prop, sig, job=job)
 
     # ddmin over lines
     n = 2
@@ -287,7 +304,7 @@ def check(prop, tier):
         jb = int(hashlib.sha256(("%d/%s/%d" % (base_seed, prop, ji)).encode()).hexdigest()[:15], 16)
         tj = time.time()
         run_chunks(exes[job["variant"]], job, jb, n, res, deadline)
-        per_job.append(dict(engine=job["engine"], cfg=job.get("cfg", ""), variant=job["variant"], requested=n, mode="single-fault sweep (requested = base programs)" if job.get("sweep") else "random",
+        per_job.append(dict(engine=job["engine"], cfg=job.get("cfg", ""), variant=job["variant"], requested=n, mode="single-fault sweep (requested = base programs)" if job.get("sweep") else "random under valgrind memcheck" if job.get("valgrind") else "random",
                             runs=res.runs, wall_s=round(time.time() - tj, 2), crashes=len(res.crashes),
                             violations=len(res.viol), budget_capped=res.budget))
         res_all.append((job, res))
@@ -324,8 +341,8 @@ def check(prop, tier):
         if text is None:
             lines_out.append("MACHINERY-ERROR: cannot regenerate plan for seed %d" % seed); machinery_broken = True; continue
         # gate: two fresh-process replays must reproduce the same signature (and hash, if the run completes)
-        r1 = replay_text(exe, text, only=None if is_crash else p)
-        r2 = replay_text(exe, text, only=None if is_crash else p)
+        r1 = replay_text(exe, text, only=None if is_crash else p, job=job)
+        r2 = replay_text(exe, text, only=None if is_crash else p, job=job)
         ok1 = (r1[2] is not None and r1[2][0] == sig) if is_crash else ((p, sig) in r1[0])
         ok2 = (r2[2] is not None and r2[2][0] == sig) if is_crash else ((p, sig) in r2[0])
         if not (ok1 and ok2 and r1[1] == r2[1]):
@@ -333,14 +350,14 @@ def check(prop, tier):
             machinery_broken = True
             continue
         n_min = sum(1 for l in lines_out if l.startswith(("VIOLATION", "KNOWN-FINDING")))
-        mtext, mruns = minimise(exe, text, p, sig, budget=350 if n_min < 6 else 40)
+        mtext, mruns = minimise(exe, text, p, sig, budget=(350 if n_min < 6 else 40) if not job.get("valgrind") else 60, job=job)
         # final fresh replay of the minimised plan
-        if not has_sig(exe, mtext, p, sig):
+        if not has_sig(exe, mtext, p, sig, job=job):
             mtext = text
         path = os.path.join(REPLAYS, "%s-%d.plan" % (prop, seed))
         with open(path, "w") as f:
             f.write(mtext)
-            f.write("# property=%s sig=%s variant=%s cfg=%s\n# %s\n" % (p, sig, job["variant"], job.get("cfg", ""), msg[:300]))
+            f.write("# property=%s sig=%s variant=%s%s cfg=%s\n# %s\n" % (p, sig, job["variant"], " (under valgrind)" if job.get("valgrind") else "", job.get("cfg", ""), msg[:300]))
         if (p, sig) in known:
             lines_out.append("KNOWN-FINDING: property=%s sig=%s %s (replay=%s)" % (p, sig, known[(p, sig)], path))
         else:
